@@ -60,6 +60,9 @@ type C02File struct {
 	NoFinalNL bool `json:"no_final_nl,omitempty"`
 	// Compress: stored as f<i>.log.<Compress> (gz | zst); globs are dir/*
 	Compress string `json:"compress,omitempty"`
+	// Pad: extra bytes per line (the "big output" family: more than the 2 MiB
+	// SSH channel window, so that a stalled client blocks the SERVER's writes)
+	Pad int `json:"pad,omitempty"`
 }
 
 func (f C02File) name(i int) string {
@@ -107,7 +110,7 @@ func (sc *C02Scenario) keep(n int) bool {
 func (sc *C02Scenario) fileContent(i int) []byte {
 	var b bytes.Buffer
 	for n := 1; n <= sc.Files[i].Lines; n++ {
-		b.WriteString(c02Line(i, n, sc.keep(n), (n*7+i)%23))
+		b.WriteString(c02Line(i, n, sc.keep(n), (n*7+i)%23+sc.Files[i].Pad))
 		if n < sc.Files[i].Lines || !sc.Files[i].NoFinalNL {
 			b.WriteByte('\n')
 		}
@@ -249,6 +252,26 @@ func c02Gen(r *Rand, tier string, i int) Scenario {
 		sc.Stalls = []StallSpec{{Name: "consumer.single", Site: siteStdoutLock, Suffix: "/lock", From: h, To: h + 1, DurMs: PickOf(r, 2900, 3100, 3100, 6100)}}
 		ncmd = 1
 	}
+	if (tier == "thorough" && r.Bool(0.06)) || (tier != "thorough" && r.Bool(0.015)) {
+		// big output over SSH: about 2.7 MB, more than the 2 MiB channel window,
+		// read against a client that pauses for seconds; the server's writes
+		// block, its queues fill, flush and the close handshake run under
+		// back-pressure
+		sc.Transport, sc.Kind, sc.Before, sc.After, sc.Max, sc.KeepEvery = "ssh", "cat", 0, 0, 0, 1
+		L := r.Range(880, 960)
+		sc.Files = []C02File{{Dir: "d0", Lines: L, Pad: 3000, NoFinalNL: r.Bool(0.3)}}
+		sc.Commands = []string{sc.Files[0].name(0)}
+		per := 1
+		if sc.Plain {
+			per = 2
+		}
+		h := (L - PickOf(r, 1, 50, 210, 400, 680, 700, 705, 720)) * per
+		sc.Stalls = []StallSpec{{Name: "consumer.single", Site: siteStdoutLock, Suffix: "/lock", From: h, To: h + 1, DurMs: PickOf(r, 1000, 3100, 6100, 12000)}}
+		if r.Bool(0.5) {
+			sc.Stalls = append(sc.Stalls, StallSpec{Name: "consumer.single", Site: siteStdoutLock, Suffix: "/lock", From: 20 * per, To: 20*per + 1, DurMs: PickOf(r, 3100, 6100)})
+		}
+		ncmd = 1
+	}
 	if ncmd > 1 && r.Bool(0.4) {
 		sc.Stalls = append(sc.Stalls, StallSpec{Name: "command.delay", Site: siteSendCommand, Suffix: "/select", From: 1, To: -1,
 			DurMs: PickOf(r, 1, 50, 500)})
@@ -257,6 +280,9 @@ func c02Gen(r *Rand, tier string, i int) Scenario {
 		sc.Net = genNetProfile(r)
 		if sc.Net.ChunkMax > 0 && sc.Net.ChunkMax < 64 {
 			sc.Net.ChunkMax = 1400
+		}
+		if len(sc.Files) > 0 && sc.Files[0].Pad > 0 && sc.Net.ChunkMax > 0 && sc.Net.ChunkMax < 4096 {
+			sc.Net.ChunkMax = 4096
 		}
 	}
 	return sc
@@ -317,6 +343,9 @@ func c02Run(t *testing.T, s Scenario, src verifsim.DecisionSource, keep bool) *R
 		stdout = w.Stdout(proc.StdoutCut)
 	})
 	res.NonTrivial = sc.selectedTotal() > 0 && (len(sc.Stalls) > 0 || len(sc.Files) > 1 || res.Choices > 0)
+	if len(sc.Files) > 0 && sc.Files[0].Pad > 0 {
+		res.Probes = addProbe(res.Probes, "big-output-over-ssh", 1)
+	}
 	if res.Panic != "" {
 		res.Class, res.Message = "panic", res.Panic
 		return res
@@ -380,7 +409,7 @@ func c02Oracle(sc *C02Scenario, stdout []byte) (string, string) {
 		if e1 != nil || e2 != nil || fi < 0 || fi >= len(sc.Files) {
 			return "stray-output", fmt.Sprintf("unexpected output line %q", trunc(s, 100))
 		}
-		if want := c02Line(fi, n, sc.keep(n), (n*7+fi)%23); want != s {
+		if want := c02Line(fi, n, sc.keep(n), (n*7+fi)%23+sc.Files[fi].Pad); want != s {
 			return "line-altered", fmt.Sprintf("line %q differs from the file's line %q", trunc(s, 100), want)
 		}
 		got[fi] = append(got[fi], n)
@@ -437,6 +466,9 @@ func c02Shape(s Scenario) string {
 	var sz []string
 	for _, f := range sc.Files {
 		x := strconv.Itoa(f.Lines) + f.Compress
+		if f.Pad > 0 {
+			x += "+" + strconv.Itoa(f.Pad)
+		}
 		if f.NoFinalNL {
 			x += "!"
 		}
